@@ -336,7 +336,12 @@ def run_penalty(case, ctx):
         got = []
         for j, (l, (Lv, Rv, fz)) in enumerate(zip(lines, vals)):
             cmp = l['cmp']
-            v = cond_of[j](xin)
+            try:        # (the generated function's own frame is '<string>', not a file of the package)
+                v = cond_of[j](xin)
+            except Exception as e:
+                v = None
+                ctx.expect(False, 'C14.condition_evaluates',
+                           dict(texts=texts, line=j, doc=cond_of[j].__doc__, x=x, error=repr(e)[:300]))
             got.append(v)
             tr = _line_truth(l, Lv, Rv, fz, tol, rel)
             truth.append(tr)
